@@ -125,7 +125,11 @@ func copyScenarios(tier string) []engine.Scenario {
 				k := cfg{LogN: logN, LogSlots: ls, Copy: true}
 				k.Residual = c.Choose(4, "residual")
 				k.CtGap = c.Choose(2, "ctgap")
-				k.Batch = c.Choose(3, "batch")
+				if tier == "thorough" {
+					k.Batch = c.Choose(3, "batch")
+				} else {
+					k.Batch = 2 * c.Choose(2, "batch") // one ciphertext, three ciphertexts
+				}
 				c.Cover("axis", "copy")
 				runFunctional(c, k)
 			}})
@@ -139,12 +143,15 @@ func scenarios(tier string) []engine.Scenario {
 	scs = append(scs, defaultScenarios(tier)...)
 	scs = append(scs, functionalScenarios(tier)...)
 	scs = append(scs, copyScenarios(tier)...)
+	scs = append(scs, announcedScenarios(tier)...)
+	scs = append(scs, reportedScenarios(tier)...)
 	scs = append(scs, sequenceScenarios(tier)...)
 	scs = append(scs, restoreScenarios(tier)...)
 	scs = append(scs, dftScenarios(tier)...)
 	scs = append(scs, mod1Scenarios(tier)...)
-	scs = append(scs, thresholdScenarios(tier)...) // a few seconds each: last, outside the re-run window of the determinism gate
-	return scs
+	scs = append(scs, thresholdScenarios(tier)...)
+	return balance(tier, scs) // cheapest first (re-run window of the determinism gate), most expensive last
+
 }
 
 func main() {
@@ -160,6 +167,7 @@ func main() {
 			"Item 1: every exported default literal at LogN 8..10 and every reduced configuration: levels of every polynomial of every generated key, Galois set == advertised set, key requests recorded during a real bootstrap. " +
 			"Item 2: configurations within a deviation bound of the ordinary one over 14 option axes x (LogN, LogSlots) bases (quick: <=1 deviation on every base of LogN 8,9 and <=2 on the fully packed and the single-slot base of LogN 8; thorough: <=2 on every base of LogN 8, 9 and 10), plus the full product ring relation x sparsity x batch size on a ShallowCopy; one batch of ciphertexts with pairwise distinct slot values each. " +
 			"Item 3: CoeffsToSlots∘SlotsToCoeffs for every depth split x slot count, mod1 evaluator on a grid of its interval for every literal option. " +
+			"Announced quantities (announced.go): the key bundle built by the harness with the public generators from exactly the announced lists (ring relation x encapsulation x packing) must be accepted, bootstrap to the calibrated precision, and be refused once any announced Galois key is removed; Galois set of GenEvaluationKeys == Parameters.GaloisElements as sets; the circuit run stage by stage must consume per stage what DepthCoeffsToSlots/DepthEvalMod/DepthSlotsToCoeffs report (every DFT split pair, every mod1 option), Depth/OutputLevel/LogMaxSlots/BitConsumption against the generated chain, an input at MinimumInputLevel with a non-power-of-two scale against the same input at the default scale. " +
 			"distinct_nontrivial counts distinct (configuration, observed precision/levels) classes.",
 		Assumptions: []string{
 			"reduced rings (LogN 6..10) with the test suite's size-reduction recipe (LogQ {60,40}, LogP {61}, LogMessageRatio raised by 16-LogN) stand in for the shipped LogN 15/16 sets; the shipped sizes themselves are not executed",
@@ -172,7 +180,7 @@ func main() {
 		QuickBudget:    quickBudget,
 		ThoroughBudget: thoroughBudget,
 		Expect: func(tier string) []string {
-			e := []string{"axis=default", "axis=copy", "seq=first=full", "restored=conjugate-invariant", "restored=ring-degree-switch", "restored=writeto-into-used", "restored=marshal-into-fresh", "seq=second=batch3-sparser-small", "seq=first=evalmod-scaled-0.5", "seq=second=evalmod-scaled-2i", "seq=res0", "seq=res1", "seq=res2", "calibration=hit", "dft=sparse=true", "dft=sparse=false",
+			e := []string{"axis=default", "axis=copy", "axis=announced-keys", "reported=depths", "reported=staged", "reported=minimum-input-level", "seq=first=full", "restored=conjugate-invariant", "restored=ring-degree-switch", "restored=writeto-into-used", "restored=marshal-into-fresh", "seq=second=batch3-sparser-small", "seq=first=evalmod-scaled-0.5", "seq=second=evalmod-scaled-2i", "seq=res0", "seq=res1", "seq=res2", "calibration=hit", "dft=sparse=true", "dft=sparse=false",
 				"mod1type=0", "mod1type=1", "mod1type=2", "mod1da=0", "mod1da=1", "mod1da=2", "mod1da=3", "mod1inv=0", "mod1inv=5", "mod1inv=7",
 				"default=DefaultParametersSparse[0]", "default=DefaultParametersDense[0]", "defaultLogN=8", "defaultLogN=9", "defaultLogN=10", "defaultLogN=11",
 				"keys=all-generated-keys-requested", "rejected=constructor-error", "encaps=on", "encaps=off", "ringkeys=none", "ringkeys=degree-switch", "ringkeys=conjugate-invariant",
